@@ -192,13 +192,14 @@ func sortedKeysW(m map[string]WriterM) []string {
 type PageStyle struct {
 	Limit      uint64 // limit of the first page
 	RestLimit  uint64 // limit of every further page (0 = same as Limit)
+	RestUnset  bool   // every further page leaves the limit unset (0 on the wire: the default page size)
 	Reverse    bool
 	CountTotal bool
 	ByOffset   bool
 }
 
 func (p PageStyle) String() string {
-	return fmt.Sprintf("limit=%d rest_limit=%d reverse=%v count=%v offset_based=%v", p.Limit, p.RestLimit, p.Reverse, p.CountTotal, p.ByOffset)
+	return fmt.Sprintf("limit=%d rest_limit=%d rest_unset=%v reverse=%v count=%v offset_based=%v", p.Limit, p.RestLimit, p.RestUnset, p.Reverse, p.CountTotal, p.ByOffset)
 }
 
 // RandomPageStyle draws a paging style: any page size (including 0 = default, sizes around 1000 and absurdly
@@ -209,6 +210,8 @@ func RandomPageStyle(r *PRNG) PageStyle {
 	st := PageStyle{Limit: lim[r.Intn(len(lim))], Reverse: r.Chance(0.35), CountTotal: r.Chance(0.4), ByOffset: r.Chance(0.45)}
 	if r.Chance(0.4) {
 		st.RestLimit = lim[1+r.Intn(len(lim)-1)]
+	} else if st.Limit != 0 && r.Chance(0.25) {
+		st.RestUnset = true // "the first two, then whatever the default page brings"
 	}
 	return st
 }
@@ -221,6 +224,9 @@ func pageAll(style PageStyle, fetch func(*query.PageRequest) ([]string, *query.P
 		limit := style.Limit
 		if pages > 0 && style.RestLimit != 0 {
 			limit = style.RestLimit
+		}
+		if pages > 0 && style.RestUnset {
+			limit = 0
 		}
 		req := &query.PageRequest{Limit: limit, Reverse: style.Reverse, CountTotal: style.CountTotal}
 		if style.ByOffset {
